@@ -34,7 +34,7 @@ type DomKind int
 
 const (
 	DomKFloat01 DomKind = iota
-	DomKInt          // integer in [Min, Max]; Max < 0 = unbounded
+	DomKInt             // integer in [Min, Max]; Max < 0 = unbounded
 	DomKBool
 	DomKEnum // case-insensitive member of Values
 	DomKColor
